@@ -246,8 +246,8 @@ def layout_129029 : List PubField := [
   ⟨"Geoidal Separation", 304, 32, true, 1, 2, .param "GeoidalSeparation"⟩]
 
 /-- PGN 129029, the repeated reference-station record as the library writes it for exactly one station
-(`pair_129029_t`: the setter path with `nReferenceStations` in 1..254; the count itself is written as 1) -/
-def layout_129029_t : List PubField := [
+(`pair_129029_a`: the setter path with `nReferenceStations` in 1..254; the count itself is written as 1) -/
+def layout_129029_a : List PubField := [
   ⟨"Reference Station Type", 344, 4, false, 1, 0, .param "ReferenceStationType"⟩,
   ⟨"Reference Station ID", 348, 12, false, 1, 0, .param "ReferenceSationID"⟩,
   ⟨"Age of DGNSS Corrections", 360, 16, false, 1, 2, .param "AgeOfCorrection"⟩]
@@ -399,7 +399,7 @@ def enumFields : List (String × String × String) := [
   ("126992", "Source", "enum_TimeSource"), ("127245", "Direction Order", "enum_RudderDirectionOrder"),
   ("127250", "Reference", "enum_HeadingReference"), ("127505", "Type", "enum_FluidType"),
   ("128259", "Speed Water Referenced Type", "enum_SpeedWaterReferenceType"), ("129026", "COG Reference", "enum_HeadingReference"),
-  ("129029", "GNSS type", "enum_GNSStype"), ("129029", "Method", "enum_GNSSmethod"), ("129029_t", "Reference Station Type", "enum_GNSStype"),
+  ("129029", "GNSS type", "enum_GNSStype"), ("129029", "Method", "enum_GNSSmethod"), ("129029_a", "Reference Station Type", "enum_GNSStype"),
   ("129283", "XTE mode", "enum_XTEMode"), ("129284", "Course/Bearing reference", "enum_HeadingReference"),
   ("129284", "Calculation Type", "enum_DistanceCalculationType"), ("129539", "Desired Mode", "enum_GNSSDOPmode"),
   ("129539", "Actual Mode", "enum_GNSSDOPmode"), ("130306", "Reference", "enum_WindReference"),
